@@ -193,6 +193,25 @@ def run_problem(name, p, variant, tout, laws):
             svb = copy.deepcopy(items[0].results.statevars)
             res = fem.newtonrhapson(items=items, dof0=dof0, dof1=dof1, ext0=ext0, verbose=0, **kw)
             record(res, dof0, dof1, ext0, svb, tid + "#cont")
+            # continuation by a very fine increment, and a micro-scale prescribed value from the virgin state:
+            # the prescribed values must still be carried exactly (bit patterns)
+            [m.update(p["ramp"][-1] + 2.0e-6) for m in movers]
+            ext0 = fem.dof.apply(field, b2, dof0)
+            svb = copy.deepcopy(items[0].results.statevars)
+            res = fem.newtonrhapson(items=items, dof0=dof0, dof1=dof1, ext0=ext0, verbose=0, **kw)
+            record(res, dof0, dof1, ext0, svb, tid + "#fine")
+            field2 = p["field_fn"]()
+            items2 = p["items_fn"](field2, None)
+            bounds2, _ = loadcase(p["lc"], field2, p["lckw"])
+            [b.update(1.0e-9) for k, b in bounds2.items() if k.startswith("move")]
+            d0, d1 = fem.dof.partition(field2, bounds2)
+            e0 = fem.dof.apply(field2, bounds2, d0)
+            res = fem.newtonrhapson(items=items2, dof0=d0, dof1=d1, ext0=e0, verbose=0, **kw)
+            n1, n0 = independent_residual(p["items_fn"], res.x, d0, d1, None)
+            xv = np.concatenate([f.values.ravel() for f in res.x.fields])
+            laws.write({"id": tid + "#micro", "kind": "newton", "nt": True, "success": bool(res.success), "iterations": int(res.iterations),
+                        "linear": bool(p["linear"]), "xd": fhex(xv[d0]), "ext": fhex(e0), "n0": len(d0),
+                        "ratio": fp(n1 / (1e-3 + n0)), "tol": fp(tol), "maxiter": int(p["maxiter"])})
         else:
             ramp = list(p["ramp"])
             if variant == "job-fail":
@@ -244,8 +263,11 @@ def replay(n, line, maxiter, tout, prefix="beh"):
     head = script[0].split(":")
     oracle = sl.Oracle([t for t in script[1:] if t in ("conv", "cont", "nan")])
     field = sl.small_field(2)
-    a = sl.StateItem(field)
-    b = sl.ScriptedItem(field, oracle)
+    # with x0 the job works on a SEPARATE top-level container (the documented multi-body pattern): the items keep their own
+    # container, Job links x0 to every converged substep
+    ifield = sl.small_field(2) if (head[0] == "job" and head[2] == "T") else field
+    a = sl.StateItem(ifield)
+    b = sl.ScriptedItem(ifield, oracle)
     # expected committed state of the stateful item: its counter when the last 'conv' token was consumed
     last = {"v": 0.0}
     o_next = oracle.next
